@@ -136,11 +136,11 @@ func c05Shapes() []c05shape {
 	strS := gen.S{"type": "string"}
 	objProps := gen.S{"role": strS, "id": intS, "ok": boolS, "score": numS}
 	shapes := []c05shape{
-		{Name: "integer", Kind: "prim", Schema: intS, Values: []any{5.0, -3.0, 0.0, 1000000.0, 42.0, 9007199254740991.0}, Bad: []any{"abc", "1.5", "x1"}},
+		{Name: "integer", Kind: "prim", Schema: intS, Values: []any{5.0, -3.0, 0.0, 1000000.0, 42.0, 9007199254740991.0}, Bad: []any{"abc", "1.5", "x1", "0x10", "1_000", "0b11", "0o17", "0X1F"}},
 		{Name: "integer-bounded", Kind: "prim", Schema: gen.S{"type": "integer", "minimum": 1.0, "maximum": 10.0}, Values: []any{0.0, 1.0, 5.0, 10.0, 11.0, -1.0}},
 		{Name: "int32", Kind: "prim", Schema: gen.S{"type": "integer", "format": "int32"}, Values: []any{7.0, -2147483648.0, 2147483647.0}, Bad: []any{"zz", 2147483648.0, 4294967303.0, -2147483649.0}},
 		{Name: "array-int32", Kind: "array", Schema: gen.S{"type": "array", "items": gen.S{"type": "integer", "format": "int32"}}, Values: []any{gen.Arr(1.0, -5.0)}, Bad: []any{gen.Arr(1.0, 4294967303.0)}},
-		{Name: "number", Kind: "prim", Schema: numS, Values: []any{1.5, -0.25, 3.0, 0.0, 123456.789, 1e21}, Bad: []any{"abc", "1x"}},
+		{Name: "number", Kind: "prim", Schema: numS, Values: []any{1.5, -0.25, 3.0, 0.0, 123456.789, 1e21}, Bad: []any{"abc", "1x", "0x1p-2", "Inf", "NaN", "-Infinity", "0x10", "1_0.5"}},
 		{Name: "number-multiple", Kind: "prim", Schema: gen.S{"type": "number", "multipleOf": 0.5, "exclusiveMinimum": true, "minimum": 0.0}, Values: []any{0.5, 0.0, 1.25, 2.0, -0.5}},
 		{Name: "boolean", Kind: "prim", Schema: boolS, Values: []any{true, false}, Bad: []any{"maybe", "yes!"}},
 		{Name: "string", Kind: "prim", Schema: strS, Values: []any{"abc", "a1", "Hello", "x-y_z", "123", "true", "p", "role"}},
